@@ -156,7 +156,16 @@ def h_listing(e, shapes, directives):
     e.claim("canary:listing", len(listing2) == len(listing) + 1)
 
 
-HARNESSES = {"roundtrip": h_roundtrip, "listing": h_listing}
+def h_message(e, m, mode):
+    """error-message clause: the text a run-time error message prints for the failing instruction
+    is the printed form of the instruction stored at the reported address (whose re-assembly
+    `roundtrip` decides), in both modes, with zero to two instructions ahead of it in the pipeline"""
+    from checks import c15
+
+    return c15.h_runtime(e, m, mode)
+
+
+HARNESSES = {"roundtrip": h_roundtrip, "listing": h_listing, "message": h_message}
 
 
 def nregs(m):
@@ -170,9 +179,6 @@ def nregs(m):
 
 
 def jobs(tier, seed):
-    import sys
-
-    sys.path.insert(0, "/repo")
     names = ["add", "sub", "sll", "slt", "sltu", "xor", "srl", "sra", "or", "and", "mul", "mulh", "mulhu", "mulhsu", "div", "divu", "rem", "remu",
              "addi", "slti", "sltiu", "xori", "ori", "andi", "slli", "srli", "srai", "lb", "lh", "lw", "lbu", "lhu", "jalr", "sb", "sh", "sw",
              "beq", "bne", "blt", "bge", "bltu", "bgeu", "lui", "auipc", "jal", "csrrw", "csrrs", "csrrc", "csrrwi", "csrrsi", "csrrci", "ecall", "ebreak"]
@@ -187,6 +193,9 @@ def jobs(tier, seed):
                 if tier == "quick" and (pi + k + seed) % 3 != 0 and n:
                     continue
                 out.append({"label": "rt-%s-%s-k%d" % (m, ".".join(map(str, p)), k), "harness": "roundtrip", "args": {"m": m, "regs": list(p), "k": k}, "cost": 1, "validate_every": 2})
+    for m in ("lb", "lh", "lw", "lbu", "lhu", "sb", "sh", "sw", "ecall"):
+        for mode in ("single_stage_pipeline", "five_stage_pipeline"):
+            out.append({"label": "message-%s-%s" % (m, mode[:4]), "harness": "message", "args": {"m": m, "mode": mode}, "cost": 3})
     from checks.c04 import SHAPES
     import itertools
 
